@@ -96,9 +96,9 @@ NP = {"int8": np.int8, "int16": np.int16, "int32": np.int32, "int64": np.int64, 
       "uint64": np.uint64, "size": np.uint64, "float32": np.float32, "float64": np.float64, "complexfloat32": np.complex64,
       "complexfloat64": np.complex128}
 out = []
-for variant in ("native", "numpy"):
+for vi, variant in [(vi, variant) for vi in range(len(spec["valuations"])) for variant in ("native", "numpy")]:
     kw = {}
-    for f in spec["fields"]:
+    for f in spec["valuations"][vi]:
         v = Fraction(f["n"], f["d"])
         if f["p"].startswith("complex"):
             x = complex(float(v), 0.0)
@@ -112,6 +112,8 @@ for variant in ("native", "numpy"):
         obj = cls(**kw)
         src = inspect.getsource(cls)
         for cid in ids:
+            if cid not in spec["run"][vi]:
+                continue
             m = getattr(obj, cid)
             ann = None
             import re
@@ -128,10 +130,10 @@ for variant in ("native", "numpy"):
                     re_, im_ = Fraction(float(v)), Fraction(0)
                 else:
                     re_, im_ = Fraction(int(v)), Fraction(0)
-                out.append({"variant": variant, "id": cid, "ann": ann, "n": str(re_.numerator), "d": str(re_.denominator), "imag0": im_ == 0,
+                out.append({"val": vi, "variant": variant, "id": cid, "ann": ann, "n": str(re_.numerator), "d": str(re_.denominator), "imag0": im_ == 0,
                             "pytype": type(v).__name__})
             except Exception as ex:
-                out.append({"variant": variant, "id": cid, "ann": ann, "error": "%s: %s" % (type(ex).__name__, ex)})
+                out.append({"val": vi, "variant": variant, "id": cid, "ann": ann, "error": "%s: %s" % (type(ex).__name__, ex)})
 json.dump(out, open(sys.argv[4], "w"))
 '''
 
@@ -425,9 +427,12 @@ def main():
     os.makedirs(wd)
     out = os.path.join(wd, "cases.ndjson")
     fpath = os.path.join(wd, "fields.ndjson")
-    res = tlc_eval("Computed", timeout=900, workdir=wd, env={"VERIF_OUT": out, "VERIF_FIELDS": fpath})
+    fpath2 = os.path.join(wd, "fields2.ndjson")
+    res = tlc_eval("Computed", timeout=900, workdir=wd, env={"VERIF_OUT": out, "VERIF_FIELDS": fpath, "VERIF_FIELDS2": fpath2})
     c.add_tlc(res)
     fields = [json.loads(l) for l in open(fpath) if l.strip()]
+    fields2 = [json.loads(l) for l in open(fpath2) if l.strip()]
+    valuations = [fields, fields2]
     cases = [json.loads(l) for l in open(out) if l.strip()]
     c.cov["states"] = len(cases)
     c.cov["transitions"] = len(cases)
@@ -439,6 +444,10 @@ def main():
         x["id"] = "c%d" % n
         x["text"] = fmt(x["e"], fields)
     fieldvals = {f["name"]: Fraction(f["n"], f["d"]) for f in fields}
+    fieldvals2 = {f["name"]: Fraction(f["n"], f["d"]) for f in fields2}
+
+    def fieldtext(fl):
+        return ", ".join("%s=%s" % (f["name"], Fraction(f["n"], f["d"])) for f in fl if not f["p"].startswith(("uint", "complex", "size")))
     pkgs = [cases[i:i + PER_PACKAGE] for i in range(0, len(cases), PER_PACKAGE)]
 
     def work(arg):
@@ -499,9 +508,10 @@ def main():
         gen = os.path.join(root, "cpp")
         shutil.copy(os.path.join(drivers.SHIMS, "yardl_shim_ndarray.h"), os.path.join(gen, "yardl", "yardl_shim_ndarray.h"))
         body = [CPP_DRIVER_HEAD]
-        for rname, ids in records.items():
+        runs = [set(x["id"] for x in pcases if x["defined"] or x["defined_floor"] or x["signdiv"]), set(x["id"] for x in pcases if x["defined2"])]
+        for vi, rname, ids in [(vi, rname, ids) for vi in (0, 1) for rname, ids in records.items()]:
             body.append("  { %s::%s r;" % (ns, rname))
-            for fl in fields:
+            for fl in valuations[vi]:
                 v = Fraction(fl["n"], fl["d"])
                 if fl["p"].startswith("complex"):
                     lit = "{%s, 0}" % repr(float(v))
@@ -514,9 +524,9 @@ def main():
                 body.append("    r.%s = %s;" % (fl["name"], lit))
             for cid in ids:
                 # an expression without a defined value (division by zero, overflow) is only typed, never run
-                if defined[cid]:
-                    body.append('    show("%s", r.%s());' % (cid, "C" + cid[1:]))
-                else:
+                if cid in runs[vi]:
+                    body.append('    show("%s%s", r.%s());' % (cid, "@2" if vi else "", "C" + cid[1:]))
+                elif vi == 0:
                     body.append('    show_type<decltype(r.%s())>("%s");' % ("C" + cid[1:], cid))
             body.append("  }")
         body.append("  return 0;\n}\n")
@@ -537,7 +547,8 @@ def main():
                     info["cpp"][p[0]] = (p[1], p[2], p[3])
         # ---- Python
         specf = os.path.join(root, "pyspec.json")
-        json.dump({"fields": fields, "records": records}, open(specf, "w"))
+        json.dump({"valuations": valuations, "records": records, "run": [sorted(runs[0] | set(x["id"] for x in pcases)), sorted(runs[1])],
+                   "evaluate": [sorted(runs[0]), sorted(runs[1])]}, open(specf, "w"))
         drv = os.path.join(root, "pyeval.py")
         open(drv, "w").write(PY_DRIVER)
         pyout = os.path.join(root, "pyout.json")
@@ -578,47 +589,73 @@ def main():
                 c.violation("C19:%s" % k, "generated code for accepted computed fields is unusable (%s): %s" % (k, info[k][-400:]),
                             {"package_model": open(info["model"]).read()[:4000], "error": info[k]})
         # values
-        for cid, (tname, re_, im_) in info["cpp"].items():
+        def expected(x, vi):
+            """(value the executed back ends must produce, kind) for valuation vi, or (None, None) when the expression is only typed there"""
+            if vi == 0:
+                if x["defined"]:
+                    return Fraction(x["value"]["n"], x["value"]["d"]), "exact"
+                if x["defined_floor"]:
+                    return Fraction(x["value_floor"]["n"], x["value_floor"]["d"]), "rounded-down quotient of non-negative integers"
+                return None, None
+            if x["defined2"]:
+                return Fraction(x["value2"]["n"], x["value2"]["d"]), "positive valuation"
+            return None, None
+        cppval = {}
+        for cid2, (tname, re_, im_) in info["cpp"].items():
+            cid, vi = (cid2[:-2], 1) if cid2.endswith("@2") else (cid2, 0)
             x = byid[cid]
-            types_cpp[cid] = tname
+            if vi == 0:
+                types_cpp[cid] = tname
             c.cov["traces_validated_against_impl"] += 1
-            if x["defined"]:
-                exp = Fraction(x["value"]["n"], x["value"]["d"])
-                c.count(("cpp", shape(x["e"], fields)), nontrivial=True)
-                try:
-                    got = Fraction(re_) if "." not in re_ and "e" not in re_ and "n" not in re_ else Fraction(float(re_))
-                    ok = got == exp and Fraction(float(im_)) == 0
-                except (ValueError, OverflowError):
-                    ok, got = False, re_
-                if not ok:
-                    c.violation("C19:value:cpp:%s" % shape(x["e"], fields), "C++ evaluates '%s' to %s, the mathematical value is %s" % (x["text"], got, exp),
-                                {"expression": x["text"], "fields": fields, "expected": str(exp), "cpp": [tname, re_, im_]})
+            exp, kind = expected(x, vi)
+            try:
+                got = Fraction(re_) if "." not in re_ and "e" not in re_ and "n" not in re_ else Fraction(float(re_))
+                okim = Fraction(float(im_)) == 0
+            except (ValueError, OverflowError):
+                got, okim = None, False
+            cppval[(cid, vi)] = got
+            if exp is not None:
+                c.count(("cpp", vi, shape(x["e"], fields)), nontrivial=True)
+                if got != exp or not okim:
+                    c.violation("C19:value:cpp:%s" % shape(x["e"], fields), "C++ evaluates '%s' to %s for %s, the value (%s) is %s" % (
+                        x["text"], got if got is not None else re_, fieldtext(valuations[vi]), kind, exp),
+                                {"expression": x["text"], "fields": valuations[vi], "expected": str(exp), "cpp": [tname, re_, im_]})
         for r in info["py"]:
             x = byid[r["id"]]
-            if r["variant"] == "native":
+            vi = r.get("val", 0)
+            if r["variant"] == "native" and vi == 0:
                 types_py[r["id"]] = PY_ANN.get(r["ann"], r["ann"])
             c.cov["traces_validated_against_impl"] += 1
-            if x["defined"]:
-                exp = Fraction(x["value"]["n"], x["value"]["d"])
-                c.count(("py", r["variant"], shape(x["e"], fields)), nontrivial=True)
+            exp, kind = expected(x, vi)
+            if exp is not None:
+                c.count(("py", vi, r["variant"], shape(x["e"], fields)), nontrivial=True)
                 if "error" in r:
                     c.violation("C19:value:py-%s:%s" % (r["variant"], shape(x["e"], fields)),
                                 "Python (%s field values) fails to evaluate '%s': %s" % (r["variant"], x["text"], r["error"]),
-                                {"expression": x["text"], "fields": fields, "expected": str(exp), "python": r})
+                                {"expression": x["text"], "fields": valuations[vi], "expected": str(exp), "python": r})
                     continue
                 got = Fraction(int(r["n"]), int(r["d"]))
                 if got != exp or not r["imag0"]:
                     c.violation("C19:value:py-%s:%s" % (r["variant"], shape(x["e"], fields)),
-                                "Python (%s field values) evaluates '%s' to %s, the mathematical value is %s" % (r["variant"], x["text"], got, exp),
-                                {"expression": x["text"], "fields": fields, "expected": str(exp), "python": r})
-        for cid, text in info["matlab"].items():
+                                "Python (%s field values) evaluates '%s' to %s for %s, the value (%s) is %s" % (r["variant"], x["text"], got, fieldtext(valuations[vi]), kind, exp),
+                                {"expression": x["text"], "fields": valuations[vi], "expected": str(exp), "python": r})
+            elif vi == 0 and x["signdiv"] and "error" not in r and cppval.get((r["id"], 0)) is not None:
+                # no mathematical integer value: the property only asks that every target language gives the same one
+                c.count(("signdiv", r["variant"], shape(x["e"], fields)), nontrivial=True)
+                got = Fraction(int(r["n"]), int(r["d"]))
+                if got != cppval[(r["id"], 0)]:
+                    c.violation("C19:intdiv:negative-inexact", "the inexact integer quotient '%s' (%s) is %s in the generated C++ and %s in the generated Python (%s field values)" % (
+                        x["text"], fieldtext(valuations[0]), cppval[(r["id"], 0)], got, r["variant"]),
+                                {"expression": x["text"], "fields": valuations[0], "cpp": str(cppval[(r["id"], 0)]), "python": r})
+        for cid, text, vi in [(cid, text, vi) for cid, text in info["matlab"].items() for vi in (0, 1)]:
             x = byid[cid]
-            if not x["defined"]:
+            # (MATLAB rounds integer quotients to nearest: only exact quotients have a language-independent value there)
+            if not (x["defined"] if vi == 0 else (x["defined2"] and x["exact2"])):
                 continue
-            exp = Fraction(x["value"]["n"], x["value"]["d"])
-            c.count(("matlab", shape(x["e"], fields)), nontrivial=True)
+            exp = Fraction(x["value"]["n"], x["value"]["d"]) if vi == 0 else Fraction(x["value2"]["n"], x["value2"]["d"])
+            c.count(("matlab", vi, shape(x["e"], fields)), nontrivial=True)
             try:
-                got = MatlabExpr(text, fieldvals).parse()
+                got = MatlabExpr(text, fieldvals if vi == 0 else fieldvals2).parse()
             except (ValueError, ZeroDivisionError, OverflowError) as ex:
                 c.cov["matlab_unread"] = c.cov.get("matlab_unread", 0) + 1
                 continue
